@@ -109,8 +109,6 @@ def run(tier, seed):
     snippets = mutate.harvest_repo_snippets()
     for k, g in enumerate(gens):
         texts.append(("generated" if k % 10 < 9 else "generated-shape", g.encode("utf8")))
-    # open finding K5: `await using` after a line terminator
-    snippets = [s for s in snippets if "await using" not in s]
     for s in snippets:
         texts.append(("repo-snippet", s.encode("utf8", "replace")))
     pool = gens + snippets
